@@ -22,7 +22,7 @@ LEVEL = 'exploration'
 SHARDS = {'quick': 16, 'thorough': 16}
 FLOOR = {'quick': 1500, 'thorough': 20000}
 REQUIRED_MONITORS = {'model-compared': 5000, 'handled-failures': 1500, 'error-variable-compared': 300,
-                     'metal-shapes-compared': 300, 'fallback-start-tags-compared': 500}
+                     'metal-shapes-compared': 300, 'fallback-start-tags-compared': 500, 'repeated-failures-compared': 300}
 RULE = ('a case = (program with on-error on a random subset of elements, depth <= 3 (quick) / 4 (thorough), binding table, '
         'failure set of 1..2 raising expression occurrences chosen among ALL occurrences incl. fallback expressions); '
         'non-trivial iff >=1 failure is raised inside an on-error element (per the model); distinct by (handler nesting '
@@ -130,6 +130,7 @@ def run(ctx):
     layer_error_variable(ctx, 30 if ctx.quick else 500)
     layer_metal(ctx, 40 if ctx.quick else 600)
     layer_start_tag_options(ctx, 40 if ctx.quick else 800)
+    layer_repeated_failures(ctx, 25 if ctx.quick else 400)
 
 
 def layer_error_variable(ctx, n):
@@ -236,6 +237,57 @@ def layer_start_tag_options(ctx, n):
             ctx.violation('fallback-start-tag-differs-from-regular-start-tag',
                           'template %r options %r\n  body succeeds: %r\n  body fails:    %r\n  expected:      %r' % (src, cfg, ok, bad, want),
                           {'kind': 'starttag', 'src': src, 'cfg': {k: (sorted(v) if isinstance(v, set) else v) for k, v in cfg.items()}})
+
+
+
+def layer_repeated_failures(ctx, n):
+    """Several failures handled in ONE rendering: the handler is called once per handled failure - also when the
+    failures raise the very same exception object (a prepared instance), or distinct objects that compare equal."""
+    from chameleon import PageTemplate
+    rng = ctx.rng
+
+    class AlwaysEqual(Exception):
+        def __eq__(self, other):
+            return isinstance(other, AlwaysEqual)
+
+        def __hash__(self):
+            return 1
+    for case in range(n):
+        k = rng.randint(2, 5)
+        kind = rng.choice(['same-object', 'equal-objects', 'fresh-objects', 'same-object-nested'])
+        shared = KeyError('prepared')
+
+        def f(i, kind=kind, shared=shared):
+            if kind.startswith('same-object'):
+                raise shared
+            if kind == 'equal-objects':
+                raise AlwaysEqual(i)
+            raise KeyError(i)
+        if kind == 'same-object-nested':
+            src = '<r>' + '<div tal:on-error="string:O%d"><b tal:on-error="f(%d)">${f(%d)}</b></div>' * k % tuple(
+                x for i in range(k) for x in (i, 100 + i, i)) + '</r>'
+            want = '<r>' + ''.join('<div>O%d</div>' % i for i in range(k)) + '</r>'
+            ncalls = 2 * k         # the inner failure is handled, its fallback fails and is handled by the outer element
+        else:
+            shape = rng.choice(['siblings', 'repeat'])
+            if shape == 'siblings':
+                src = '<r>' + ''.join('<p tal:on-error="string:E%d">${f(%d)}</p>' % (i, i) for i in range(k)) + '</r>'
+                want = '<r>' + ''.join('<p>E%d</p>' % i for i in range(k)) + '</r>'
+            else:
+                src = '<r><tal:r repeat="i range(%d)"><p tal:on-error="string:E${i}">${f(i)}</p></tal:r></r>' % k
+                want = '<r>' + ''.join('<p>E%d</p>' % i for i in range(k)) + '</r>'
+            ncalls = k
+        calls = []
+        try:
+            out = PageTemplate(src, on_error_handler=calls.append)(f=f)
+        except Exception as e:
+            out = 'RAISED %s: %s' % (type(e).__name__, str(e).split('\n')[0][:80])
+        ctx.mon('repeated-failures-compared')
+        ctx.case(key=('repeated', kind, k), nontrivial=True)
+        if out != want or len(calls) != ncalls:
+            ctx.violation('handler-calls-differ' if out == want else 'output-differs',
+                          'template %r, failures raise %s: rendered %r, handler called %d time(s); expected %r and %d calls' % (
+                              src, kind, out, len(calls), want, ncalls), {'kind': 'errvar', 'src': src})
 
 
 def layer_metal(ctx, n):
